@@ -1,12 +1,326 @@
-//! Extension module (Tier A): owner fills in. Output: coq/gen/SemiFacts.v
-//! Contract: return (text of the .v file, report lines). Each report line is one JSON object
-//! {"item":"SemiFacts.<name>","file":"<rust file>","ok":true|false[,"error":"..."]}.
-//! Fail closed: when a site is not recognised, OMIT the Gallina definition (so dependent proofs stop
-//! compiling) and push an ok:false report line.
+//! Extension module (Tier A) for C03: the RE-STAMPING SITES of semi-naive evaluation.
+//! Output: coq/gen/SemiFacts.v -- boolean facts consumed by coq/Semi/Stamped.v (the stamped model
+//! takes its stamping discipline from them) and pinned in coq/Props/C03.v.
+//!
+//! Sites read (all located with `syn`, then matched on whitespace-free token text):
+//!  * core-relations/src/table/rebuild.rs: `macro_rules! insert_row` writes `next_ts` into the sort
+//!    column before `stage_insert`; every rebuild path inserts through it with `next_ts`; the
+//!    container refresh path does the same by hand;
+//!  * egglog-bridge/src/lib.rs `EGraph::rebuild`: the timestamp handed to `apply_rebuild` /
+//!    `refresh_rows_for_values` is the current clock, and the clock is advanced in the loop;
+//!  * egglog-bridge/src/lib.rs `MergeFn::to_callback`: the merged row carries the NEW row's
+//!    timestamp, and is written only when value or subsume flag changed;
+//!  * egglog-bridge/src/lib.rs `run_rules_inner` / `flush_updates_inner` / `run_rules_impl`: the
+//!    clock read before the run is the rules' next `last_run_at`, `inc_ts` on every path.
+//! Fail closed: an unrecognised site omits its definitions and reports ok:false.
 
-pub fn generate(_repo: &std::path::Path) -> (String, Vec<String>) {
-    (
-        "(* GENERATED by /verif/translator (x_semi.rs): nothing extracted yet *)\n".to_string(),
-        Vec::new(),
-    )
+use quote::ToTokens;
+use std::path::Path;
+use syn::visit::Visit;
+
+fn squash(s: &str) -> String {
+    s.chars().filter(|c| !c.is_whitespace()).collect()
+}
+
+fn find_fns(file: &syn::File, name: &str) -> Vec<syn::Block> {
+    struct F<'n> {
+        name: &'n str,
+        found: Vec<syn::Block>,
+    }
+    impl<'ast, 'n> Visit<'ast> for F<'n> {
+        fn visit_impl_item_fn(&mut self, f: &'ast syn::ImplItemFn) {
+            if f.sig.ident == self.name {
+                self.found.push(f.block.clone());
+            }
+            syn::visit::visit_impl_item_fn(self, f);
+        }
+        fn visit_item_fn(&mut self, f: &'ast syn::ItemFn) {
+            if f.sig.ident == self.name {
+                self.found.push((*f.block).clone());
+            }
+            syn::visit::visit_item_fn(self, f);
+        }
+    }
+    let mut v = F { name, found: vec![] };
+    v.visit_file(file);
+    v.found
+}
+
+fn block_text(b: &syn::Block) -> String {
+    squash(&b.to_token_stream().to_string())
+}
+
+/// position of `needle` in `hay` at or after `from`
+fn pos_from(hay: &str, needle: &str, from: usize) -> Option<usize> {
+    hay.get(from..).and_then(|h| h.find(needle)).map(|p| p + from)
+}
+
+/// the text of the brace-delimited block that starts at the first `{` at or after `from`
+fn braced_from(hay: &str, from: usize) -> Option<&str> {
+    let bytes = hay.as_bytes();
+    let start = pos_from(hay, "{", from)?;
+    let mut depth = 0usize;
+    for (i, b) in bytes.iter().enumerate().skip(start) {
+        match b {
+            b'{' => depth += 1,
+            b'}' => {
+                depth -= 1;
+                if depth == 0 {
+                    return Some(&hay[start..=i]);
+                }
+            }
+            _ => {}
+        }
+    }
+    None
+}
+
+fn b(x: bool) -> &'static str {
+    if x {
+        "true"
+    } else {
+        "false"
+    }
+}
+
+// ------------------------------------------------------------------------------------------------
+
+fn rebuild_restamp(repo: &Path) -> Result<String, String> {
+    let rel = "core-relations/src/table/rebuild.rs";
+    let src = std::fs::read_to_string(repo.join(rel)).map_err(|e| e.to_string())?;
+    let file = syn::parse_file(&src).map_err(|e| e.to_string())?;
+    // the macro definition and its invocations
+    struct M {
+        def: Option<String>,
+        uses: Vec<String>,
+    }
+    impl<'ast> Visit<'ast> for M {
+        fn visit_item_macro(&mut self, m: &'ast syn::ItemMacro) {
+            if m.mac.path.is_ident("macro_rules") && m.ident.as_ref().map(|i| i == "insert_row").unwrap_or(false) {
+                self.def = Some(squash(&m.mac.tokens.to_string()));
+            }
+            syn::visit::visit_item_macro(self, m);
+        }
+        fn visit_macro(&mut self, m: &'ast syn::Macro) {
+            if m.path.is_ident("insert_row") {
+                self.uses.push(squash(&m.tokens.to_string()));
+            }
+            syn::visit::visit_macro(self, m);
+        }
+    }
+    let mut m = M { def: None, uses: vec![] };
+    m.visit_file(&file);
+    let def = m.def.ok_or("macro_rules! insert_row not found")?;
+    if m.uses.is_empty() {
+        return Err("no insert_row! invocation found".into());
+    }
+    let def_ok = def.contains("letnext_ts=$next_ts;")
+        && def.contains("ifletSome(sort_by)=this.sort_by{row[sort_by.index()]=next_ts;}")
+        && def.contains(".stage_insert(row)")
+        && def.contains("letrow=$row;");
+    // the assignment must come before the insert
+    let order_ok = match (def.find("row[sort_by.index()]=next_ts;"), def.find(".stage_insert(row)")) {
+        (Some(a), Some(c)) => a < c,
+        _ => false,
+    };
+    let uses_ok = m.uses.iter().all(|u| {
+        let parts: Vec<&str> = u.split(',').collect();
+        parts.len() == 4 && parts[3] == "next_ts"
+    });
+    // no rebuild path inserts behind the macro's back
+    struct S {
+        direct: usize,
+    }
+    impl<'ast> Visit<'ast> for S {
+        fn visit_expr_method_call(&mut self, c: &'ast syn::ExprMethodCall) {
+            if c.method == "stage_insert" {
+                self.direct += 1;
+            }
+            syn::visit::visit_expr_method_call(self, c);
+        }
+    }
+    let mut direct = 0usize;
+    for name in ["rebuild_incremental", "rebuild_nonincremental"] {
+        let fns = find_fns(&file, name);
+        if fns.len() != 1 {
+            return Err(format!("expected exactly one fn {name}, found {}", fns.len()));
+        }
+        let mut s = S { direct: 0 };
+        s.visit_block(&fns[0]);
+        direct += s.direct;
+        // each rebuild path must take `next_ts` as a parameter name used by the macro calls
+    }
+    let restamp = def_ok && order_ok && uses_ok && direct == 0;
+    // container refresh
+    let fns = find_fns(&file, "refresh_rows_for_values");
+    if fns.len() != 1 {
+        return Err(format!("expected exactly one fn refresh_rows_for_values, found {}", fns.len()));
+    }
+    let t = block_text(&fns[0]);
+    let refresh = match (
+        t.find("ifletSome(sort_by)=self.sort_by{refreshed_row[sort_by.index()]=next_ts;}"),
+        t.find("mutation_buf.stage_insert(&refreshed_row)"),
+    ) {
+        (Some(a), Some(c)) => a < c,
+        _ => false,
+    };
+    Ok(format!(
+        "(* {rel}: macro insert_row! (sort column := next_ts before stage_insert), its {n} invocations, rebuild_incremental / rebuild_nonincremental have no direct stage_insert *)\nDefinition restamp_on_rebuild : bool := {}.\nDefinition rebuild_insert_sites : nat := {n}.\n(* {rel}: refresh_rows_for_values re-inserts the dirty parents with next_ts *)\nDefinition refresh_restamps : bool := {}.\n",
+        b(restamp),
+        b(refresh),
+        n = m.uses.len()
+    ))
+}
+
+fn rebuild_clock(repo: &Path) -> Result<String, String> {
+    let rel = "egglog-bridge/src/lib.rs";
+    let src = std::fs::read_to_string(repo.join(rel)).map_err(|e| e.to_string())?;
+    let file = syn::parse_file(&src).map_err(|e| e.to_string())?;
+    let fns: Vec<String> = find_fns(&file, "rebuild").iter().map(block_text).filter(|t| t.contains("apply_rebuild(")).collect();
+    if fns.len() != 1 {
+        return Err(format!("expected exactly one fn rebuild calling apply_rebuild, found {}", fns.len()));
+    }
+    let t = &fns[0];
+    let lp = t.find("loop{").ok_or("native rebuild loop not found")?;
+    let body = braced_from(t, lp).ok_or("loop body not delimited")?;
+    let decl = body.find("letnext_ts=self.next_ts().to_value();");
+    let apply = body.find("self.db.apply_rebuild(self.uf_table,&tables,next_ts)");
+    let refresh = body.find(".refresh_rows_for_values(&tables,&dirty_ids,next_ts)");
+    let clock = match (decl, apply, refresh) {
+        (Some(d), Some(a), Some(r)) => d < a && d < r && body[d + 1..].find("letnext_ts=").is_none(),
+        _ => false,
+    };
+    let inc = match (apply, refresh) {
+        (Some(a), Some(r)) => pos_from(body, "self.inc_ts();", a.max(r)).is_some() && body[..a.max(r)].find("self.inc_ts();").is_none(),
+        _ => false,
+    };
+    Ok(format!(
+        "(* {rel} EGraph::rebuild (native loop): apply_rebuild / refresh_rows_for_values are handed the current clock; the clock is advanced after them in every pass *)\nDefinition rebuild_ts_is_clock : bool := {}.\nDefinition inc_ts_rebuild_path : bool := {}.\n",
+        b(clock),
+        b(inc)
+    ))
+}
+
+fn merge_restamp(repo: &Path) -> Result<String, String> {
+    let rel = "egglog-bridge/src/lib.rs";
+    let src = std::fs::read_to_string(repo.join(rel)).map_err(|e| e.to_string())?;
+    let file = syn::parse_file(&src).map_err(|e| e.to_string())?;
+    let fns = find_fns(&file, "to_callback");
+    if fns.len() != 1 {
+        return Err(format!("expected exactly one fn to_callback, found {}", fns.len()));
+    }
+    let t = block_text(&fns[0]);
+    let cl = t.find("move|state,cur,new,out|{").ok_or("merge closure `move |state, cur, new, out|` not found")?;
+    let body = braced_from(&t, cl).ok_or("closure body not delimited")?;
+    let ts_from_new = body.contains("lettimestamp=new[schema_math.ts_col()];") && body.matches("lettimestamp=").count() == 1;
+    let ifc = body.find("ifchanged{");
+    let (writes_ts, only_in_if) = match ifc {
+        Some(p) => {
+            let blk = braced_from(body, p).unwrap_or("");
+            let w = blk.contains("schema_math.write_table_row(out,RowVals{")
+                && (blk.contains("RowVals{timestamp,") || blk.contains("RowVals{timestamp:timestamp,"));
+            let outside = format!("{}{}", &body[..p], &body[p + "ifchanged".len() + blk.len()..]);
+            let only = !outside.contains("write_table_row") && !outside.contains("out.extend") && !outside.contains("out.push");
+            (w, only)
+        }
+        None => (false, false),
+    };
+    // `changed` accounts for the value and for the subsume flag, and nothing resets it
+    let run = body.find("letout=resolved.run(state,cur,new,timestamp);");
+    let covers = match run {
+        Some(r) => pos_from(body, "changed|=cur!=out;", r).is_some() && body.matches("changed|=cur!=out;").count() == 2,
+        None => false,
+    };
+    let no_reset = body.matches("changed=").count() == 1 && body.contains("letmutchanged=false;");
+    let tail = body.ends_with("changed}");
+    Ok(format!(
+        "(* {rel} MergeFn::to_callback: the merged row carries the incoming row's timestamp; `changed` covers value and subsume flag; the row is written iff changed *)\nDefinition merge_ts_from_new : bool := {}.\nDefinition restamp_on_merge_change : bool := {}.\nDefinition merge_keeps_stamp_when_unchanged : bool := {}.\n",
+        b(ts_from_new),
+        b(ts_from_new && writes_ts && covers && no_reset && tail),
+        b(only_in_if && tail && no_reset)
+    ))
+}
+
+fn inc_ts(repo: &Path) -> Result<String, String> {
+    let rel = "egglog-bridge/src/lib.rs";
+    let src = std::fs::read_to_string(repo.join(rel)).map_err(|e| e.to_string())?;
+    let file = syn::parse_file(&src).map_err(|e| e.to_string())?;
+    let one = |name: &str| -> Result<String, String> {
+        let fns = find_fns(&file, name);
+        if fns.len() != 1 {
+            return Err(format!("expected exactly one fn {name}, found {}", fns.len()));
+        }
+        Ok(block_text(&fns[0]))
+    };
+    let rr = one("run_rules_inner")?;
+    let call = rr.find("run_rules_impl(").ok_or("run_rules_impl call not found")?;
+    let run_ts = rr.starts_with("{letts=self.next_ts();")
+        && rr[call..].starts_with("run_rules_impl(&mutself.db,&mutself.rules,rules,ts,")
+        && rr.matches("letts=").count() == 1;
+    let br = rr.find("ifuf_size_before==uf_size_after{").ok_or("no-rebuild branch of run_rules_inner not found")?;
+    let blk = braced_from(&rr, br).ok_or("branch not delimited")?;
+    let no_rebuild = match (blk.find("self.inc_ts();"), blk.find("returnOk(")) {
+        (Some(a), Some(c)) => a < c,
+        _ => false,
+    };
+    let fl = one("flush_updates_inner")?;
+    let flush = match (fl.find("self.db.merge_all()"), fl.find("self.inc_ts();")) {
+        (Some(a), Some(c)) => a < c,
+        _ => false,
+    };
+    // run_rules_impl: fourth parameter is next_ts, and the rule's stamp is set to it
+    struct Sig {
+        p4: Option<String>,
+    }
+    impl<'ast> Visit<'ast> for Sig {
+        fn visit_item_fn(&mut self, f: &'ast syn::ItemFn) {
+            if f.sig.ident == "run_rules_impl" {
+                if let Some(syn::FnArg::Typed(pt)) = f.sig.inputs.iter().nth(3) {
+                    self.p4 = Some(squash(&pt.pat.to_token_stream().to_string()));
+                }
+            }
+            syn::visit::visit_item_fn(self, f);
+        }
+    }
+    let mut sg = Sig { p4: None };
+    sg.visit_file(&file);
+    let ri = one("run_rules_impl")?;
+    let set = sg.p4.as_deref() == Some("next_ts")
+        && ri.matches("info.last_run_at=").count() == 1
+        && ri.contains("info.last_run_at=next_ts;")
+        && !ri.contains("letnext_ts=");
+    Ok(format!(
+        "(* {rel} run_rules_inner: the clock read before the run is what run_rules_impl stamps the rules with; inc_ts on the no-rebuild path; flush_updates_inner: inc_ts after merge_all; run_rules_impl: info.last_run_at = next_ts (4th parameter) *)\nDefinition run_ts_is_clock : bool := {}.\nDefinition inc_ts_no_rebuild_path : bool := {}.\nDefinition inc_ts_flush : bool := {}.\nDefinition last_run_set_to_run_ts : bool := {}.\n",
+        b(run_ts),
+        b(no_rebuild),
+        b(flush),
+        b(set)
+    ))
+}
+
+pub fn generate(repo: &Path) -> (String, Vec<String>) {
+    let mut text = String::from("(* GENERATED by /verif/translator (x_semi.rs): re-stamping sites of semi-naive evaluation -- do not edit *)\n");
+    let mut report = Vec::new();
+    let groups: Vec<(&str, &str, fn(&Path) -> Result<String, String>)> = vec![
+        ("SemiFacts.rebuild_restamp", "core-relations/src/table/rebuild.rs", rebuild_restamp),
+        ("SemiFacts.rebuild_clock", "egglog-bridge/src/lib.rs", rebuild_clock),
+        ("SemiFacts.merge_restamp", "egglog-bridge/src/lib.rs", merge_restamp),
+        ("SemiFacts.inc_ts", "egglog-bridge/src/lib.rs", inc_ts),
+    ];
+    for (item, file, f) in groups {
+        match f(repo) {
+            Ok(t) => {
+                text.push_str(&t);
+                report.push(format!("{{\"item\":\"{item}\",\"file\":\"{file}\",\"ok\":true}}"));
+            }
+            Err(e) => {
+                text.push_str(&format!("(* {item}: NOT RECOGNISED: {} *)\n", e.replace("*)", "* )")));
+                report.push(format!(
+                    "{{\"item\":\"{item}\",\"file\":\"{file}\",\"ok\":false,\"error\":\"{}\"}}",
+                    e.replace('\\', "\\\\").replace('"', "'")
+                ));
+            }
+        }
+    }
+    (text, report)
 }
